@@ -74,6 +74,12 @@ def run(ctx, args):
         ("R", [V("D1"), A("D1"), V("T1"), A("T1"), V("D3"), A("D3"), V("T2"), F("T3"), V("T2")]),
         ("R", [F("D1"), F("D3", "T1"), V("T3"), F("T2"), V("T3"), V("TI"), V("W1"), A("W1")]),
         ("R", [F("D1"), F("T1"), V("D3"), V("T2"), A("D3"), V("T2", "TI"), V("T2"), F("T3"), V("T2")]),
+        # a claim offered while the submission it references is only pending; malformed submissions
+        ("R", [V("D1"), A("D1"), V("T1"), A("T1"), V("X1"), A("X1"), V("W1"), V("K1"), V("WY")]),
+        ("S", [V("D1"), A("D1"), V("T1"), A("T1"), V("WX"), V("W1"), V("WX")]),
+        ("R", [F("D1"), F("T1"), V("WY"), V("W1", "WY"), V("W1"), A("W1")]),
+        ("R", [F("D1"), F("T1"), V("WY"), V("T3"), A("T3")]),
+        ("S", [F("D1"), F("T1"), V("WX"), V("D3"), A("D3")]),
         # outputs that do not add up to the inputs
         ("S", [V("D3"), A("D3"), V("TD"), V("D1", "TD"), V("D1"), A("D1")]),
         ("R", [F("D3"), V("TI"), V("D1", "TI"), V("D4")]),
